@@ -42,13 +42,14 @@ ASSUMPTIONS = [
 ]
 
 TIERS = {"quick": [18, 23], "thorough": list(range(13, 24))}
+PAIR_OPSETS = {"quick": [18], "thorough": [13, 18, 23]}
 
 
 # ------------------------------------------------------------------------------------------------
 # plan (parent process): the whole case space is enumerated by the explorer
 # ------------------------------------------------------------------------------------------------
 
-def _driver_for(opsets):
+def _driver_for(opsets, pair_opsets):
     def driver(ch):
         kind = ch.all("kind", ["single", "pair"])
         if kind == "single":
@@ -63,12 +64,13 @@ def _driver_for(opsets):
             d = ch.all("dtype", menu)
             li = ch.all("lit", range(len(spec.POOL)))
             return ("s", n, name, p, fill, d, li)
+        n = ch.all("pair-opset", pair_opsets)
         shape = ch.all("shape", spec.PAIR_SHAPES)
         d1 = ch.all("d1", spec.pair_dtypes(shape))
         d2 = ch.all("d2", spec.pair_dtypes2(shape, d1))
         i = ch.all("l1", range(len(spec.PAIR_POOL)))
         j = ch.all("l2", range(len(spec.PAIR_POOL)))
-        return ("p", shape, d1, d2, i, j)
+        return ("p", n, shape, d1, d2, i, j)
     return driver
 
 
@@ -76,23 +78,25 @@ def plan(tier, seed):
     opsets = TIERS[tier]
     st = explore.Stats()
     groups = collections.OrderedDict()
-    for _, case in explore.explore(_driver_for(opsets), bound=0, stats=st):
+    for _, case in explore.explore(_driver_for(opsets, PAIR_OPSETS[tier]), bound=0, stats=st):
         if case[0] == "s":
             _, n, name, p, fill, d, li = case
             groups.setdefault(("s", n, name, p), []).append([fill, d, li])
         else:
-            _, shape, d1, d2, i, j = case
-            groups.setdefault(("p", shape, d1, d2), []).append([i, j])
+            _, n, shape, d1, d2, i, j = case
+            groups.setdefault(("p", n, shape, d1, d2), []).append([i, j])
     items = []
     for key in sorted(groups, key=lambda k: tuple(str(x) for x in k)):
         if key[0] == "s":
             items.append({"kind": "single", "opset": key[1], "op": key[2], "pos": key[3], "cases": groups[key]})
         else:
-            items.append({"kind": "pair", "shape": key[1], "d1": key[2], "d2": key[3], "cases": groups[key]})
+            items.append({"kind": "pair", "opset": key[1], "shape": key[2], "d1": key[3], "d2": key[4],
+                          "cases": groups[key]})
     d = st.as_dict()
     d["exhaustive"] = not st.capped
     d["dimensions"] = {k: len(v) for k, v in st.dim_hist.items()}
     d["opsets"] = opsets
+    d["pair_opsets"] = PAIR_OPSETS[tier]
     d["excluded_ops"] = spec.exclusion_histogram(opsets)
     return items, d
 
